@@ -444,6 +444,48 @@ func (m *coreMon) check(op string, res string, cur *coreSnap) {
 			}
 		}
 	}
+	// ---- C11 / C20: rollapp owners (recipients of the rollapp gauges' payouts at epoch end): changed only
+	// by a MsgTransferOwnership signed by the current owner, never to an address the bank refuses
+	for ri, r := range cur.Ras {
+		if !r.Exists {
+			continue
+		}
+		if r.OwnerBlocked {
+			m.violate("C11/owner/rollapp-owned-by-blocked-address", fmt.Sprintf("r%d owner %s after %s", ri, r.Owner, op))
+		}
+		if ri >= len(prev.Ras) || !prev.Ras[ri].Exists {
+			continue
+		}
+		pr := prev.Ras[ri]
+		named := len(f) > 1 && f[1] == fmt.Sprintf("r%d", ri)
+		if r.Owner != pr.Owner {
+			switch {
+			case !(f[0] == "xferowner" && named && res == "ok"):
+				m.violate("C11/owner/owner-changed-outside-transfer", fmt.Sprintf("r%d %s -> %s by %s (res %s)", ri, pr.Owner, r.Owner, op, res))
+			case kv["by"] != pr.Owner:
+				m.violate("C11/owner/transfer-accepted-from-non-owner", fmt.Sprintf("r%d owner %s, signed by %s", ri, pr.Owner, kv["by"]))
+			case kv["to"] != r.Owner:
+				m.violate("C11/owner/transfer-to-another-address", fmt.Sprintf("r%d new owner %s, message names %s", ri, r.Owner, kv["to"]))
+			}
+		} else if f[0] == "xferowner" && named && res == "ok" {
+			m.violate("C11/owner/accepted-transfer-changed-nothing", op)
+		}
+		if f[0] == "xferowner" && res == "ok" {
+			a, b := pr, r
+			a.Owner, b.Owner = "", ""
+			if fmt.Sprintf("%+v", a) != fmt.Sprintf("%+v", b) {
+				m.violate("C11/owner/transfer-changed-more-than-the-owner", fmt.Sprintf("r%d by %s", ri, op))
+			}
+			if named {
+				m.r.Hit("xferowner/accepted/to-" + kv["to"][:1])
+			}
+		}
+	}
+	if f[0] == "xferowner" && res == "ok" {
+		if fmt.Sprint(cur.Seqs) != fmt.Sprint(prev.Seqs) || !cur.Mod.Equal(prev.Mod) || fmt.Sprint(cur.Bal) != fmt.Sprint(prev.Bal) {
+			m.violate("C11/owner/transfer-changed-more-than-the-owner", "sequencers or balances changed by "+op)
+		}
+	}
 	// ---- C07 / C20: the standalone PunishSequencerProposal changes no role, forks nothing, touches no
 	// record field other than the bond, and is accepted from the governance authority only
 	if f[0] == "punish" && res == "ok" {
@@ -725,6 +767,9 @@ func (c *coreGen) next(s *coreSnap, inBlock *bool, step int) string {
 		}
 		return fmt.Sprintf("packet r%d ph=%d seq=%d t=%s", ri, ph, c.pkSeq, []string{"R", "A", "T"}[g.Intn(3)])
 	}
+	if g.Chance(3 + map[string]int{"C11": 6, "C18": 2}[c.focus]) {
+		return c.genXfer(s, ri)
+	}
 	if len(allSeqs) > 0 && g.Chance(3+map[string]int{"C06": 4, "C07": 4, "C08": 3, "C11": 2}[c.focus]) {
 		return c.genPunish(s, ri, members, allSeqs)
 	}
@@ -898,6 +943,53 @@ func (c *coreGen) genUpdate(s *coreSnap, ri int) string {
 		by = c.pickActor()
 	}
 	return fmt.Sprintf("update r%d by=a%d start=%d num=%d bdlen=%d rev=%d last=%d seqerr=%s ts=%s drs=%d rooterr=%s%s", ri, by, start, num, bdlen, rev, last, seqerr, ts, drs, rooterr, drs0)
+}
+
+// genXfer: MsgTransferOwnership — signed by the current owner / the first owner (an old owner retrying
+// after a transfer) / anybody; to an ordinary actor / a blocked module account (also spelled in upper
+// case) / the current owner itself / the first owner / nobody
+func (c *coreGen) genXfer(s *coreSnap, ri int) string {
+	g := c.g
+	ra := s.Ras[ri]
+	by := ra.Owner
+	switch x := g.Intn(100); {
+	case x < 70:
+		c.r.Hit("xferowner/by-owner")
+	case x < 85:
+		by = "o0"
+		if ra.Owner != "o0" {
+			c.r.Hit("xferowner/by-old-owner")
+		}
+	default:
+		by = fmt.Sprintf("a%d", c.pickActor())
+		c.r.Hit("xferowner/by-anybody")
+	}
+	to, uc := fmt.Sprintf("a%d", c.pickActor()), 0
+	switch x := g.Intn(100); {
+	case x < 50:
+		c.r.Hit("xferowner/to-actor")
+	case x < 64:
+		to = "m0"
+		c.r.Hit("xferowner/to-blocked")
+	case x < 76:
+		to, uc = "m0", 1
+		c.r.Hit("xferowner/to-blocked-upper-case")
+	case x < 86:
+		to = ra.Owner
+		c.r.Hit("xferowner/to-same-owner")
+	case x < 94:
+		to = "o0"
+		c.r.Hit("xferowner/to-first-owner")
+	default:
+		to = fmt.Sprintf("a%d", c.h.p.NActors+1+g.Intn(2))
+		c.r.Hit("xferowner/to-nobody")
+	}
+	rr := fmt.Sprintf("r%d", ri)
+	if g.Chance(4) {
+		rr = fmt.Sprintf("r%d", c.h.p.NRollapps+1)
+		c.r.Hit("xferowner/unknown-rollapp")
+	}
+	return fmt.Sprintf("xferowner %s by=%s to=%s uc=%d", rr, by, to, uc)
 }
 
 // genPunish: the standalone governance PunishSequencerProposal — against the proposer / another member
